@@ -18,6 +18,39 @@ import z3
 PyStr = z3.DeclareSort("PyStr")
 CSetS = z3.ArraySort(PyStr, z3.BoolSort())
 EMPTY_SET = z3.K(PyStr, z3.BoolVal(False))
+_BVS = [z3.Const(f"bv!c{i}", PyStr) for i in range(6)]
+BV = _BVS[0]
+
+
+def _occurs(v, t):
+    stack = [t]
+    seen = set()
+    while stack:
+        x = stack.pop()
+        if x.get_id() in seen:
+            continue
+        seen.add(x.get_id())
+        if x.eq(v):
+            return True
+        if z3.is_quantifier(x):
+            stack.append(x.body())
+        elif z3.is_app(x):
+            stack.extend(x.children())
+    return False
+
+
+def bound_var(*operands):
+    """canonical bound variable for a set/dict lambda: the first of a fixed family that does not occur in the operands
+    (identical constructions give identical, hash-consed terms; no capture when lambdas nest)"""
+    for v in _BVS:
+        if not any(_occurs(v, t) for t in operands):
+            return v
+    return z3.Const(fresh_name("bv"), PyStr)
+
+
+def lam(body_fn, *operands):
+    v = bound_var(*operands)
+    return z3.Lambda([v], body_fn(v))
 card = z3.Function("card", CSetS, z3.IntSort())
 fl = z3.Function("fl", z3.RealSort(), z3.RealSort())  # float rounding, exactness mode
 RMapS = z3.ArraySort(PyStr, z3.RealSort())
